@@ -1,0 +1,46 @@
+//go:build verif
+
+// Add-only observation hooks for the /verif access-control check (property C18).
+// Compiled only with `-tags verif`; nothing here is reachable from the server's own code.
+
+package server
+
+import (
+	"context"
+
+	"google.golang.org/grpc/metadata"
+)
+
+// VerifTxCounts returns the last committed transaction id of the system database and of every
+// loaded database in the database list.
+func (s *ImmuServer) VerifTxCounts() map[string]uint64 {
+	res := map[string]uint64{}
+	if s.sysDB != nil {
+		if st, err := s.sysDB.CurrentState(); err == nil {
+			res[s.sysDB.GetName()] = st.TxId
+		}
+	}
+	for i := 0; i < s.dbList.Length(); i++ {
+		db, err := s.dbList.GetByIndex(i)
+		if err != nil || db.IsClosed() {
+			continue
+		}
+		if st, err := db.CurrentState(); err == nil {
+			res[db.GetName()] = st.TxId
+		}
+	}
+	return res
+}
+
+// VerifCredentialsAccepted reports whether the request metadata carries credentials that
+// getLoggedInUserdataFromCtx accepts, and the database index they select.
+func (s *ImmuServer) VerifCredentialsAccepted(md metadata.MD) (bool, int) {
+	ind, _, err := s.getLoggedInUserdataFromCtx(metadata.NewIncomingContext(context.Background(), md))
+	return err == nil, ind
+}
+
+// VerifDatabaseLoaded reports whether the named database exists and is open.
+func (s *ImmuServer) VerifDatabaseLoaded(name string) bool {
+	db, err := s.dbList.GetByName(name)
+	return err == nil && !db.IsClosed()
+}
